@@ -798,5 +798,31 @@ func (c *Ctx) checkDepthBoundExact() {
 			r.Check(exact, "R18.8", key, c.P.Pos(bo.Pos()), "rejects exactly offset+width > 8*len(hash)", fmt.Sprintf("the bit-budget test uses %s on offset+width vs 8*len(hash): a request that exactly exhausts the hash is refused (or an over-long one accepted)", op))
 		}
 	}
+	// by role: a method on a byte-slice type taking (offset, width int) and returning (int, error) is the hash-bit slicer;
+	// it must contain the budget test at all
+	for _, fn := range c.G.Funcs() {
+		rel, ok := c.P.PkgOf(fn)
+		if !ok || rel != "data/builder" || fn.Synthetic != "" || fn.Signature.Recv() == nil || len(fn.Blocks) == 0 {
+			continue
+		}
+		sl, isSlice := fn.Signature.Recv().Type().Underlying().(*types.Slice)
+		if !isSlice || !isBasic(sl.Elem(), types.Byte) {
+			continue
+		}
+		ps, rs := fn.Signature.Params(), fn.Signature.Results()
+		if ps.Len() != 2 || rs.Len() != 2 || !isIntegerType(ps.At(0).Type()) || !isIntegerType(ps.At(1).Type()) || !isIntegerType(rs.At(0).Type()) || !core.IsErrorType(rs.At(1).Type()) {
+			continue
+		}
+		found := false
+		for _, o := range r.Obls {
+			if o.Rule == "R18.8" && strings.HasPrefix(o.Key, core.FuncName(fn)+"/") {
+				found = true
+			}
+		}
+		if !found {
+			n++
+			r.Violate("R18.8", core.FuncName(fn)+"/bit-budget-tested", c.P.Pos(fn.Pos()), "the hash-bit slicer does not compare offset+width with 8*len(hash) before slicing: past the end of the hash the builder reads out of range (panic) instead of reporting that the directory is too deep")
+		}
+	}
 	r.Floor("R18.8", n, 1)
 }
